@@ -493,13 +493,32 @@ func (interp *Interpreter) resizeFrame() {
 // Eval evaluates Go code represented as a string. Eval returns the last result
 // computed by the interpreter, and a non nil error in case of failure.
 func (interp *Interpreter) Eval(src string) (res reflect.Value, err error) {
+	interp.rearm()
 	return interp.eval(src, "", true)
+}
+
+// rearm replaces the channel closed by the cancellation of a previous evaluation: an
+// evaluation without context must not see its channel operations and select statements
+// as cancelled.
+func (interp *Interpreter) rearm() {
+	interp.mutex.Lock()
+	select {
+	case <-interp.done:
+		interp.done = make(chan struct{})
+	default:
+	}
+	interp.mutex.Unlock()
 }
 
 // EvalPath evaluates Go code located at path and returns the last result computed
 // by the interpreter, and a non nil error in case of failure.
 // The main function of the main package is executed if present.
 func (interp *Interpreter) EvalPath(path string) (res reflect.Value, err error) {
+	interp.rearm()
+	return interp.evalPath(path)
+}
+
+func (interp *Interpreter) evalPath(path string) (res reflect.Value, err error) {
 	if !isFile(interp.opt.filesystem, path) {
 		_, err := interp.importSrc(mainID, path, NoTest)
 		return res, err
@@ -524,7 +543,7 @@ func (interp *Interpreter) EvalPathWithContext(ctx context.Context, path string)
 	done := make(chan struct{})
 	go func() {
 		defer close(done)
-		res, err = interp.EvalPath(path)
+		res, err = interp.evalPath(path)
 	}()
 
 	select {
@@ -560,7 +579,7 @@ func (interp *Interpreter) eval(src, name string, inc bool) (res reflect.Value, 
 		return res, err
 	}
 
-	return interp.Execute(prog)
+	return interp.execute(prog)
 }
 
 // EvalWithContext evaluates Go code represented as a string. It returns
@@ -584,7 +603,7 @@ func (interp *Interpreter) EvalWithContext(ctx context.Context, src string) (ref
 			}
 			close(done)
 		}()
-		v, err = interp.Eval(src)
+		v, err = interp.eval(src, "", true)
 	}()
 
 	select {
